@@ -41,6 +41,7 @@ _PURE_BUILTINS = {'next': next, 'iter': iter, 'dict': dict, 'list': list, 'tuple
 
 
 import posixpath as _pp
+import pathlib as _pathlib
 import builtins as _builtins_mod
 _PURE_EXTERNALS = {'os.path.join': _pp.join, 'os.path.normpath': _pp.normpath, 'os.path.basename': _pp.basename, 'os.path.dirname': _pp.dirname,
                    'os.path.splitext': _pp.splitext, 'os.path.isabs': _pp.isabs, 'os.path.abspath': lambda x: _pp.normpath(_pp.join('/cwd', x)),
@@ -747,6 +748,21 @@ class FDE:
         return bool(v)
 
     def _attr(self, base, attr, fi=None):
+        if isinstance(base, _pathlib.PurePath) and not attr.startswith('_'):
+            # pure paths are plain values: their attributes / methods only compute with the text of the path
+            if attr == 'parents':
+                return tuple(base.parents)
+            v_ = getattr(base, attr, None)
+            if v_ is None and not hasattr(base, attr):
+                raise Raised('AttributeError')
+            if callable(v_):
+                def call(*a, **k):
+                    if not all(isinstance(x, (str, _pathlib.PurePath)) for x in a) or k:
+                        raise Unsupported('path method %s on abstract arguments' % attr)
+                    return v_(*a)
+                call._fde_ok = True
+                return call
+            return v_
         if isinstance(base, EnumMember) and attr in ('name', 'value'):
             return getattr(base, attr)
         if isinstance(base, tuple) and hasattr(type(base), '_fields'):
